@@ -480,11 +480,11 @@ class _Parser(object):
 
     def _handle_string_operator(self, operator, values):
         if operator == '$toLower':
-            parsed = self.parse(values)
-            return str(parsed).lower() if parsed is not None else ''
+            parsed = self._parse_or_nothing(values)
+            return str(parsed).lower() if parsed not in (None, NOTHING) else ''
         if operator == '$toUpper':
-            parsed = self.parse(values)
-            return str(parsed).upper() if parsed is not None else ''
+            parsed = self._parse_or_nothing(values)
+            return str(parsed).upper() if parsed not in (None, NOTHING) else ''
         if operator == '$concat':
             parsed_list = list(self.parse_many(values))
             return None if None in parsed_list else ''.join([str(x) for x in parsed_list])
@@ -524,7 +524,7 @@ class _Parser(object):
         if operator == '$strcasecmp':
             if len(values) != 2:
                 raise OperationFailure('strcasecmp must have 2 items')
-            a, b = str(self.parse(values[0])), str(self.parse(values[1]))
+            a, b = str(self.parse(values[0])).upper(), str(self.parse(values[1])).upper()
             return 0 if a == b else -1 if a < b else 1
         if operator == '$regexMatch':
             if not isinstance(values, dict):
